@@ -23,6 +23,9 @@ DISTS = {
     "normal_arrloc": ("{g}.normal(da.from_array(np.arange({n}) * 1.0, chunks=2).reshape({shape}) if False else np.arange({n}).reshape({shape}) * 1.0, 1.0, size={shape}, chunks={chunks})", ("rng", "rs")),
     "poisson_arrlam": ("{g}.poisson(np.arange({n}).reshape({shape}) + 1.0, size={shape}, chunks={chunks})", ("rng", "rs")),
     "uniform": ("{g}.uniform(-1.0, 1.0, size={shape}, chunks={chunks})", ("rng", "rs")),
+    # distributions without a dedicated expression class, with array-valued parameters
+    "gamma_arrshape": ("{g}.gamma(np.arange({n}).reshape({shape}) + 1.0, 2.0, size={shape}, chunks={chunks})", ("rng", "rs")),
+    "uniform_arrhigh": ("{g}.uniform(0.0, np.arange({n}).reshape({shape}) + 1.0, size={shape}, chunks={chunks})", ("rng", "rs")),
     "integers": ("{g}.integers(0, 100, size={shape}, chunks={chunks})", ("rng",)),
     "randint": ("{g}.randint(0, 100, size={shape}, chunks={chunks})", ("rs",)),
     "standard_normal": ("{g}.standard_normal({shape}, chunks={chunks})", ("rng", "rs")),
@@ -163,6 +166,19 @@ def _tagged(ctx):
 
 
 def run_shard(shard):
+    src = shard["source"]
+    if not shard.get("first"):
+        pass
+    try:
+        E.make_source(src)
+    except Exception as e:  # noqa: BLE001
+        from mc.common import ShardOut
+
+        out = ShardOut()
+        out.count("evaluations")
+        out.count("transitions")
+        out.fail({"kind": "source-raise", "signature": f"source-raise:{E.exc_sig(e)}@{src.get('dist', '?')}", "case": {"source": src, "steps": []}, "detail": f"{src['random']} raised {type(e).__name__}: {str(e)[:200]}"})
+        return out.result()
     ex = E.Explorer(shard, _tagged)
     res = ex.run().result()
     for f in res["failures"]:
@@ -175,6 +191,11 @@ def run_shard(shard):
 
 
 def replay(case):
+    if not case.get("steps"):
+        try:
+            E.make_source(case["source"])
+        except Exception as e:  # noqa: BLE001
+            return {"kind": "source-raise", "signature": f"source-raise:{E.exc_sig(e)}@{case['source'].get('dist', '?')}", "detail": f"{type(e).__name__}: {str(e)[:200]}"}
     f = E.replay_program(case, monitor)
     if f and not f["signature"].endswith("@" + case["source"].get("dist", "?")):
         f["signature"] += "@" + case["source"].get("dist", "?")
